@@ -1,3 +1,5 @@
+#[cfg(feature = "iggy_verif")]
+use iggy::verif::tokio;
 use super::{
     index::{Index, IndexRange},
     INDEX_SIZE,
